@@ -280,6 +280,13 @@ def chainStep (d : Drv) (line : String) : Drv × String :=
   | ["chistory", k] => match k.toNat? with
     | some k => (d, showHistory (history d.raw k))
     | none => bad
+  -- a block record written into the store behind the chain's back (no `append`: height, tip, height record unchanged)
+  | ["cplant", hsel, prev, root, sig, ts, prop, txs] => match ts.toNat?, prop.toNat?, parseTxs txs with
+    | some ts, some prop, some txs =>
+      match mkRawBlock d hsel prev root sig ts prop txs with
+      | some b => ({ d with raw := { d.raw with store := sput d.raw.store (.block b.header.height) (.block b) } }, "ok")
+      | none => bad
+    | _, _, _ => bad
   | ["cverify"] => (d, showVerify (verifyChain C d.rawReg d.raw))
   | ["cverify_old"] => (d, showVerify (verifyChainOld C d.rawReg d.raw))
   | ["cstate"] => (d, showState d.rawReg d.raw)
